@@ -32,15 +32,19 @@ UNPROVED = [
     "validated on the implementation only",
     "floating-point behaviour of spend() next to the ceiling (1e-9 / 1e-15 slacks of the property) is validated, not proved",
 ]
-RULE = ("accountant states generated from the seed: ceilings (inf, 1, 0.5, 3, log-uniform 1e-3..100, 0) x delta ceilings "
+RULE = ("(a) accountant states generated from the seed: ceilings (inf, 1, 0.5, 3, log-uniform 1e-3..100, 0) x delta ceilings "
         "(0, tiny, 0.5, uniform, 1) x slacks (0, fractions of the delta ceiling), histories of 0..50 accepted spends "
         "(random sizes, zero-epsilon spends, spends of remaining(j) itself so that exhausted and nearly exhausted budgets "
         "occur), k in 1..20; remaining(k) is computed by the real accountant and by the Lean model on doubles, then the "
         "returned budget is spent k times on a re-constructed copy; non-trivial when the history is non-empty and the "
-        "ceiling finite (the bisection runs against a non-trivial total); distinct by (ceilings, slack, history bits, k)")
+        "ceiling finite (the bisection runs against a non-trivial total); distinct by (ceilings, slack, history bits, k); (b) long-lived accountants: "
+        "[history, remaining(k1), slack change(s) up/down with no spend in between, remaining(k2)] rounds; the value the LIVE "
+        "object returned from its last remaining(k2) must be bit-identical to the re-constructed copy's, agree with the Lean "
+        "model, and is the value that gets the spend-back tests")
 
 SIG_FLAT = "C18:maximal:quadratic-flat-near-exhausted"
 SIG_DELTA_ULP = "C18:bounds:delta:rounding-above-ceiling"
+SIG_STALE = "C18:remaining:stale-live-state"
 BudgetError = dp.utils.BudgetError
 warnings.filterwarnings("ignore", category=RuntimeWarning, module=r"diffprivlib\.accountant")
 
@@ -110,8 +114,10 @@ FIXED = [
 
 # ---------------------------------------------------------------- direct checks on the implementation
 
-def check_state(state, k, extra=None):
-    """All C18 clauses on one accountant state.  Returns (list of (signature, what), info)."""
+def check_state(state, k, extra=None, live_rem=None):
+    """All C18 clauses on one accountant state.  Returns (list of (signature, what), info).
+    With `live_rem` (what a long-lived accountant in this state returned from remaining(k)): that value must be
+    bit-identical to what the re-constructed copy returns, and it is the value that gets the spend-back tests."""
     ce, cd, slack, spent = state
     acc = make(ce, cd, slack, spent)
     out = []
@@ -122,6 +128,13 @@ def check_state(state, k, extra=None):
                                          f"{type(ex).__name__}: {str(ex)[:100]}")], {"remaining": None}
     er, dr = float(rem[0]), float(rem[1])
     info = {"remaining": (er, dr)}
+    if live_rem is not None:
+        if tuple(live_rem) != (er, dr):
+            out.append((SIG_STALE, f"ceiling=({ce!r},{cd!r}) slack={slack!r} {len(spent)} spends: the long-lived accountant's "
+                                   f"remaining({k}) = {tuple(live_rem)!r} but an accountant re-constructed from the same ceilings, "
+                                   f"slack and spent_budget returns ({er!r}, {dr!r})"))
+        er, dr = float(live_rem[0]), float(live_rem[1])
+        info = {"remaining": (er, dr)}
     here = f"ceiling=({ce!r},{cd!r}) slack={slack!r} {len(spent)} spends k={k}: remaining=({er!r},{dr!r})"
 
     # the unlimited accountant
@@ -140,7 +153,7 @@ def check_state(state, k, extra=None):
             out.append((SIG_DELTA_ULP, f"{here}: delta exceeds the delta ceiling by {dr - cd:.3e} (rounding of the closed form)"))
         else:
             out.append(("C18:bounds:delta", f"{here}: delta outside [0, ceiling]"))
-    if any(sig != SIG_DELTA_ULP for sig, _ in out):
+    if any(sig not in (SIG_DELTA_ULP, SIG_STALE) for sig, _ in out):
         return out, info
 
     min_eps = 0.0 if math.isinf(ce) else ce * 1e-14
@@ -200,6 +213,71 @@ def check_state(state, k, extra=None):
     return out, info
 
 
+# ---------------------------------------------------------------- long-lived accountants
+
+def gen_live(r):
+    """(ce, cd, slack0, ops): a history, then remaining(k1), slack change(s) with NO spend in between, remaining(k2) —
+    possibly several such rounds; the last op is always a remaining(k)."""
+    ce = float(r.choice([1.0, 1.0, 0.5, 3.0, 10.0, r.loguniform(1e-2, 100.0)]))
+    cd = float(r.choice([1.0, 0.5, 0.5, r.uniform(0.05, 1.0), 1e-3]))
+    s0 = float(r.choice([0.0, 0.0, cd * r.u01() * 0.5, cd * r.loguniform(1e-6, 0.3)]))
+    n = r.randint(0, 30)
+    frac = r.choice([0.3, 0.8, 1.5])
+    small = r.chance(0.5)
+
+    def a_spend():
+        e = ce * frac / 50 * r.uniform(0.5, 1.5) if small else ce * frac / max(n, 1) * r.loguniform(0.05, 2.0)
+        d = r.choice([0.0, 0.0, cd * r.loguniform(1e-4, 0.5) / max(n, 1), cd * r.u01() * 0.05])
+        return ["spend", float(e), float(d)]
+
+    def a_slack():
+        return ["slack", float(r.choice([0.0, cd * r.u01(), cd * r.u01() * 0.3, cd * r.loguniform(1e-6, 1.0), cd / 2]))]
+
+    ops = [a_spend() for _ in range(n)]
+    for _ in range(r.randint(1, 3)):
+        ops.append(["remaining", r.randint(1, 20)])
+        for _ in range(r.randint(1, 3)):
+            ops.append(a_slack())
+            if r.chance(0.2):
+                ops.append(["total"])
+        ops.append(["remaining", r.randint(1, 20)])
+        if r.chance(0.5):
+            ops.append(a_spend())
+            ops.append(["remaining", r.randint(1, 20)])
+    return ce, cd, s0, ops
+
+
+LIVE_FIXED = [
+    (1.0, 0.5, 0.0, [["spend", 0.1, 0.01], ["spend", 0.1, 0.01], ["remaining", 1], ["slack", 0.2], ["remaining", 3]]),
+    (1.0, 0.5, 0.3, [["spend", 0.05, 0.0]] * 20 + [["remaining", 2], ["slack", 0.0], ["slack", 0.1], ["remaining", 5]]),
+]
+
+
+def run_live(seq):
+    """Run the sequence on ONE real accountant.  Returns (final state, k of the last remaining, its value | exception text)."""
+    ce, cd, s0, ops = seq
+    live = make(ce, cd, s0, [])
+    last = None
+    for op in ops:
+        try:
+            if op[0] == "spend":
+                quiet(live.spend, op[1], op[2])
+            elif op[0] == "slack":
+                def _set():
+                    live.slack = op[1]
+                quiet(_set)
+            elif op[0] == "total":
+                quiet(live.total)
+            elif op[0] == "remaining":
+                last = (op[1], None)
+                rem = quiet(live.remaining, op[1])
+                last = (op[1], (float(rem[0]), float(rem[1])))
+        except ValueError:
+            pass
+    state = (ce, cd, float(live.slack), [(float(e), float(d)) for e, d in live.spent_budget])
+    return state, last[0], last[1]
+
+
 def gen_extra(r, state, rem):
     ce, cd, slack, spent = state
     er, dr = rem
@@ -222,30 +300,51 @@ def check(ctx):
     n = ctx.budget(1200, 20000)
     if ctx.searching:
         n = min(n, 5000)          # keeps the failing-input search of the quick tier within a few minutes
-    cases = [(s, k) for s, k in FIXED]
+    cases = [(s, k, None) for s, k in FIXED]
     for _ in range(n):
-        cases.append((gen_state(r), r.randint(1, 20)))
+        cases.append((gen_state(r), r.randint(1, 20), None))
+    # long-lived accountants: the state and k of the LAST remaining() call, with the value the live object returned
+    rl = ctx.fork("live")
+    for seq in list(LIVE_FIXED) + [gen_live(rl) for _ in range(ctx.budget(300, 5000))]:
+        try:
+            state, k, live_rem = run_live(seq)
+            if live_rem is not None:
+                make(*state)                      # the re-constructed copy must exist (rounding next to the ceiling aside)
+        except ValueError:
+            ctx.boundary_skipped += 1
+            continue
+        cases.append((state, k, {"seq": list(seq), "rem": live_rem}))
     # unlimited accountants with arbitrary histories
     for _ in range(ctx.budget(30, 300)):
         spent = [(float(r.loguniform(1e-3, 100)), float(r.choice([0.0, r.u01(), 1.0]))) for _ in range(r.randint(0, 50))]
-        cases.append(((float("inf"), 1.0, 0.0, spent), r.randint(1, 20)))
+        cases.append(((float("inf"), 1.0, 0.0, spent), r.randint(1, 20), None))
     rx = ctx.fork("extra")
     lines, spans, impl = [], [], []
-    for state, k in cases:
+    for state, k, live in cases:
         ce, cd, slack, spent = state
-        try:
-            rem = quiet(make(ce, cd, slack, spent).remaining, k)
-            rem = (float(rem[0]), float(rem[1]))
-        except Exception:  # noqa
-            rem = None
+        if live is not None:
+            rem = live["rem"]
+            if rem is None:
+                ctx.violation("C18:remaining-raises", f"long-lived accountant ceiling=({ce!r},{cd!r}): remaining({k}) raised at "
+                                                      f"the end of {live['seq'][3][-6:]}", {"live": live["seq"]})
+        else:
+            try:
+                rem = quiet(make(ce, cd, slack, spent).remaining, k)
+                rem = (float(rem[0]), float(rem[1]))
+            except Exception:  # noqa
+                rem = None
         extra = gen_extra(rx, state, rem if rem else (0.0, 0.0))
-        viol, info = check_state(state, k, extra)
+        viol, info = check_state(state, k, extra, live_rem=rem if live is not None else None)
         for sig, what in viol:
-            ctx.violation(sig, what, {"state": [ce, cd, slack, spent], "k": k, "extra": list(extra)})
+            data = {"state": [ce, cd, slack, spent], "k": k, "extra": list(extra)}
+            if live is not None:
+                data["live"] = live["seq"]
+                what = what + f"  [live sequence ends with {live['seq'][3][-5:]}]"
+            ctx.violation(sig, what, data)
         if info.get("boundary"):
             ctx.boundary_skipped += 1
         nontrivial = bool(spent) and not math.isinf(ce)
-        ctx.case((f2b(ce), f2b(cd), f2b(slack), hash(tuple(spent)), k) if nontrivial else None)
+        ctx.case((f2b(ce), f2b(cd), f2b(slack), hash(tuple(spent)), k, live is not None) if nontrivial else None)
         impl.append(rem)
         flat = []
         for e, d in spent:
@@ -254,13 +353,18 @@ def check(ctx):
         lines.append("new " + " ".join(str(x) for x in [f2b(ce), f2b(cd), f2b(slack)] + flat))
         lines.append(f"remaining {k}")
     s0 = cases[len(FIXED)]
+    lv = [c for c in cases if c[2] is not None]
+    if lv:
+        ctx.sample({"live_sequence_tail": lv[0][2]["seq"][3][-5:], "final_state": [lv[0][0][0], lv[0][0][1], lv[0][0][2], len(lv[0][0][3])],
+                    "k": lv[0][1], "live_remaining": lv[0][2]["rem"]})
+        ctx.count("live_sequences", len(lv))
     ctx.sample({"ceiling": [s0[0][0], s0[0][1]], "slack": s0[0][2], "n_spends": len(s0[0][3]), "spends": s0[0][3][:4],
                 "k": s0[1], "impl_remaining": impl[len(FIXED)]})
     if ctx.searching and ctx.violations:
         return
     outs = leanio.run_driver("Accountant", lines)
     iters = []
-    for (state, k), rem, a in zip(cases, impl, spans):
+    for (state, k, live), rem, a in zip(cases, impl, spans):
         ce, cd, slack, spent = state
         w0, w = outs[a].split(), outs[a + 1].split()
         if rem is None:
@@ -292,7 +396,8 @@ def check(ctx):
         if ok_d and ok_e:
             ctx.trace_ok()
         else:
-            ctx.disagree("accountant.remaining", {"state": state, "k": k}, outs[a + 1], rem)
+            ctx.disagree("accountant.remaining" + (".live" if live is not None else ""),
+                         {"state": state, "k": k, "live": live["seq"] if live else None}, outs[a + 1], rem)
     if iters:
         finite = [i for i in iters if i > 0]
         ctx.count("model_iterations_min_nonzero", min(finite) if finite else 0)
@@ -308,10 +413,19 @@ def check(ctx):
 def replay(ctx, data):
     from ..core import unjson_float as u
     d = data["data"]
-    ce, cd, slack, spent = d["state"]
-    state = (float(u(ce)), float(u(cd)), float(u(slack)), [(float(u(e)), float(u(x))) for e, x in spent])
     extra = tuple(float(u(x)) for x in d["extra"]) if d.get("extra") else None
-    viol, _ = check_state(state, int(d["k"]), extra)
+    if d.get("live"):
+        def fix(x):
+            return [fix(y) for y in x] if isinstance(x, list) else u(x)
+        seq = fix(d["live"])
+        state, k, live_rem = run_live((float(seq[0]), float(seq[1]), float(seq[2]), seq[3]))
+        if live_rem is None:
+            return True
+        viol, _ = check_state(state, k, extra, live_rem=live_rem)
+    else:
+        ce, cd, slack, spent = d["state"]
+        state = (float(u(ce)), float(u(cd)), float(u(slack)), [(float(u(e)), float(u(x))) for e, x in spent])
+        viol, _ = check_state(state, int(d["k"]), extra)
     sig = data.get("signature")
     return any(s == sig for s, _ in viol) if sig else bool(viol)
 
